@@ -260,6 +260,8 @@ var checkAlias = register("c19.alias", func(c AliasCase) *Violation {
 	if err != nil {
 		return violf("Parse(%q) succeeded once and failed the second time: %v", tText, err)
 	}
+	_ = b.String() // anything derived lazily from the first text is computed now
+	_, _ = b.MarshalText()
 	var serr error
 	switch c.How {
 	case "Scan":
@@ -271,6 +273,20 @@ var checkAlias = register("c19.alias", func(c AliasCase) *Violation {
 	}
 	if serr != nil {
 		return violf("%s(%q) into a parsed Path failed: %v", c.How, uText, serr)
+	}
+	// the overwritten Path is now the second path, in what it prints and in what it returns
+	u, _ := path.Parse(uText)
+	if got, want := b.String(), u.String(); got != want {
+		return violf("a Path parsed from %q and then overwritten by %s(%q) prints as %q, want %q", tText, c.How, uText, got, want)
+	}
+	if mt, err := b.MarshalText(); err != nil || string(mt) != u.String() {
+		return violf("a Path parsed from %q and then overwritten by %s(%q) marshals as %q (%v), want %q", tText, c.How, uText, mt, err, u.String())
+	}
+	if ut := PathFromAST(u.AST); !orderOpen(ut.Root, doc) {
+		ob, ou := RunQuery(Opts{}.Ctx(), b, doc), RunQuery(Opts{}.Ctx(), u, doc)
+		if ob.Class != ou.Class || !sameSeq(RenderSeq(ob.Items, true), RenderSeq(ou.Items, true)) {
+			return violf("a Path parsed from %q and then overwritten by %s(%q) returns %s, a fresh Parse(%q) returns %s", tText, c.How, uText, ob, uText, ou)
+		}
 	}
 	if got := a.String(); got != wantText {
 		return violf("a Path parsed from %q prints as %q after another Path parsed from the same text was overwritten by %s(%q)", tText, got, c.How, uText)
